@@ -1,13 +1,19 @@
 import Mdsort.Proofs.Captures
 import Mdsort.Proofs.WorldOwnScripts
+import Mdsort.Proofs.EvalPCalls
 
 /-!
 # `processMessage` as "parse, then what the rules decide" (C03/C04 at world level)
 
-`processMessage` is the parse phase (`messageParseP`) followed by a continuation that depends only
+`processMessage` is the parse phase (`messageParseP`), the evaluation of the rules (`evalP`: the `command`,
+`isdirectory` and file-time `date` conditions ask the operating system) and a continuation that depends only
 on the *verdict* of the rules on the parsed message: no match, evaluation error, interpolation
 failure, or a list of actions.  In the first three cases the continuation only closes the message's
 descriptor (`C03_no_match_no_effect`).
+
+The verdict is a function of the result of evaluation (`evVerdict`).  In a run against call results `orcl` it
+is `verdictAt … orcl j` (`j` = the index of the first call of evaluation); for a rule tree that asks nothing
+(`asksFree`) it is the pure `verdict` (`verdictAt_asksFree`).
 -/
 
 namespace Mdsort.Proofs
@@ -34,9 +40,8 @@ def Verdict.isErr : Verdict → Bool
   | .unparsable | .error | .interpFail => true
   | _ => false
 
-/-- The verdict on a parsed message. -/
-def msVerdict (env : PEnv) (orc : EvalOracles) (expr : Expr) (ms : MsgSt) : Verdict :=
-  match eval (msgEnv env orc ms.path) ms.msg expr 0 ms.msg { ml := [], flags := ms.flags } with
+/-- What interpolation decides once evaluation has returned `ev`. -/
+def evVerdict (env : PEnv) (orc : EvalOracles) (ms : MsgSt) : Tri × St → Verdict
   | (.error, _) => .error
   | (.nomatch, _) => .nomatch
   | (.match, est) =>
@@ -44,17 +49,47 @@ def msVerdict (env : PEnv) (orc : EvalOracles) (expr : Expr) (ms : MsgSt) : Verd
     | none => .interpFail
     | some (ml, msgs) => .act ml msgs est.flags
 
-/-- The verdict on the file `name` of directory `dir` with content `content`. -/
-def verdict (env : PEnv) (orc : EvalOracles) (expr : Expr) (dir name content : Bytes) : Verdict :=
+/-- The evaluation of the rules on a parsed message, as `processMessage` runs it. -/
+def evalMs (env : PEnv) (orc : EvalOracles) (expr : Expr) (ms : MsgSt) : Prog (Tri × St) :=
+  evalP (msgEnv env orc ms.path) expr ms.msg ms.flags
+
+/-- The verdict on a parsed message when evaluation asks nothing (or every question fails): the pure `Model.eval`. -/
+def msVerdict (env : PEnv) (orc : EvalOracles) (expr : Expr) (ms : MsgSt) : Verdict :=
+  evVerdict env orc ms (eval (msgEnv env orc ms.path) ms.msg expr 0 ms.msg { ml := [], flags := ms.flags })
+
+/-- The verdict on a parsed message for the answers `as` of the operating system. -/
+def msVerdictA (env : PEnv) (orc : EvalOracles) (expr : Expr) (ms : MsgSt) (as : List SysAns) : Verdict :=
+  evVerdict env orc ms (evalR (msgEnv env orc ms.path) expr ms.msg ms.flags as).1
+
+/-- The file `name` of directory `dir` with content `content` as `message_parse` returns it (without descriptor). -/
+def fileMs (dir name content : Bytes) : Option MsgSt :=
   match pathjoin PATH_MAX dir name, strlcpyFits NAME_MAX1 name with
   | some p, some n =>
     match flagsParse n with
     | some mf =>
-      msVerdict env orc expr
-        { name := n, path := p, fd := none, msg := parseMessage content,
-          parts := (getAttachments (parseMessage content)).getD [], flags := mf, loc := none, content := content }
-    | none => .unparsable
-  | _, _ => .unparsable
+      some { name := n, path := p, fd := none, msg := parseMessage content,
+             parts := (getAttachments (parseMessage content)).getD [], flags := mf, loc := none, content := content }
+    | none => none
+  | _, _ => none
+
+/-- The verdict on the file `name` of directory `dir` with content `content` when evaluation asks nothing. -/
+def verdict (env : PEnv) (orc : EvalOracles) (expr : Expr) (dir name content : Bytes) : Verdict :=
+  match fileMs dir name content with
+  | some ms => msVerdict env orc expr ms
+  | none => .unparsable
+
+/-- The verdict on that file for the answers `as` of the operating system. -/
+def verdictA (env : PEnv) (orc : EvalOracles) (expr : Expr) (dir name content : Bytes) (as : List SysAns) : Verdict :=
+  match fileMs dir name content with
+  | some ms => msVerdictA env orc expr ms as
+  | none => .unparsable
+
+/-- The verdict on that file in a run against the call results `orcl` in which evaluation starts at call index `j`. -/
+def verdictAt (env : PEnv) (orc : EvalOracles) (expr : Expr) (dir name content : Bytes) (orcl : Nat → Call → Res) (j : Nat) :
+    Verdict :=
+  match fileMs dir name content with
+  | some ms => evVerdict env orc ms (runO orcl (evalMs env orc expr ms) j).1
+  | none => .unparsable
 
 /-! ## the shape of `processMessage` -/
 
@@ -84,7 +119,7 @@ def afterVerdict (env : PEnv) (md : Maildir) (name : Bytes) (st : MainSt) (ms : 
 def afterParse (env : PEnv) (orc : EvalOracles) (expr : Expr) (md : Maildir) (name : Bytes) (st : MainSt) :
     Option MsgSt → Prog (MainSt × Maildir)
   | none => .ret ({ st with error := true }, md)
-  | some ms => afterVerdict env md name st ms (msVerdict env orc expr ms)
+  | some ms => (evalMs env orc expr ms).bind fun ev => afterVerdict env md name st ms (evVerdict env orc ms ev)
 
 theorem processMessage_eq (env : PEnv) (orc : EvalOracles) (expr : Expr) (md : Maildir) (name : Bytes) (st : MainSt)
     (d : Handle) (content : Bytes) (hd : md.dirH = some d) (hf : st.files.get md.path name = some content) :
@@ -98,14 +133,16 @@ theorem processMessage_eq (env : PEnv) (orc : EvalOracles) (expr : Expr) (md : M
   cases pm with
   | none => rfl
   | some ms =>
-    simp only [afterParse, msVerdict, msgEnv]
-    generalize eval _ ms.msg expr 0 ms.msg _ = r
+    simp only [afterParse, evalMs, msgEnv]
+    show (evalP _ _ _ _).bind _ = _
+    congr 1
+    funext r
     obtain ⟨t, est⟩ := r
     cases t with
     | error => rfl
     | «nomatch» => rfl
     | «match» =>
-      dsimp only
+      simp only [evVerdict, msgEnv]
       generalize matchesInterpolate _ est.ml (partMsg ms.msg ms.parts) = r2
       cases r2 with
       | none => rfl
@@ -157,14 +194,94 @@ theorem all_messageParseP_as (d : Handle) (dir name content : Bytes) :
       · exact all_call fun _ => all_ret (fun ms h => by cases h)
   · exact all_ret (fun ms h => by cases h)
 
-/-- The verdict on a parsed message is the verdict on the file it was parsed from. -/
+/-- A parsed message is the file's `fileMs` up to the descriptor and the ghost fields. -/
+theorem fileMs_of_parsed {dir name content : Bytes} {ms : MsgSt} (h : ParsedAs dir name content (some ms)) :
+    ∃ ms0, fileMs dir name content = some ms0 ∧ ms0.path = ms.path ∧ ms0.msg = ms.msg ∧ ms0.flags = ms.flags ∧
+      ms0.parts = ms.parts := by
+  obtain ⟨p, mf, hp, hn, hmf, h1, h2, h3, h4, h5⟩ := h ms rfl
+  refine ⟨{ name := name, path := p, fd := none, msg := parseMessage content,
+            parts := (getAttachments (parseMessage content)).getD [], flags := mf, loc := none, content := content },
+    by unfold fileMs; simp only [hp, hn, hmf], h2.symm, h3.symm, h4.symm, h5.symm⟩
+
+theorem evVerdict_congr (env : PEnv) (orc : EvalOracles) {ms ms0 : MsgSt} (h1 : ms0.path = ms.path) (h2 : ms0.msg = ms.msg)
+    (h3 : ms0.parts = ms.parts) (ev : Tri × St) : evVerdict env orc ms0 ev = evVerdict env orc ms ev := by
+  obtain ⟨t, est⟩ := ev
+  cases t <;> simp only [evVerdict, h1, h2, h3]
+
+theorem evalMs_congr (env : PEnv) (orc : EvalOracles) (expr : Expr) {ms ms0 : MsgSt} (h1 : ms0.path = ms.path)
+    (h2 : ms0.msg = ms.msg) (h3 : ms0.flags = ms.flags) : evalMs env orc expr ms0 = evalMs env orc expr ms := by
+  unfold evalMs; rw [h1, h2, h3]
+
+/-- The pure verdict on a parsed message is the pure verdict on the file it was parsed from. -/
 theorem msVerdict_of_parsed (env : PEnv) (orc : EvalOracles) (expr : Expr) (dir name content : Bytes) (ms : MsgSt)
     (h : ParsedAs dir name content (some ms)) : msVerdict env orc expr ms = verdict env orc expr dir name content := by
-  obtain ⟨p, mf, hp, hn, hmf, h1, h2, h3, h4, h5⟩ := h ms rfl
+  obtain ⟨ms0, h0, h1, h2, h3, h4⟩ := fileMs_of_parsed h
   unfold verdict
-  simp only [hp, hn, hmf]
+  rw [h0]
   unfold msVerdict
-  simp only [h2, h3, h4, h5]
+  dsimp only
+  rw [evVerdict_congr env orc h1 h2 h4, h1, h2, h3]
+
+/-- The verdict on a parsed message in a run is the run's verdict on the file it was parsed from. -/
+theorem verdictAt_of_parsed (env : PEnv) (orc : EvalOracles) (expr : Expr) (dir name content : Bytes) (ms : MsgSt)
+    (h : ParsedAs dir name content (some ms)) (orcl : Nat → Call → Res) (j : Nat) :
+    evVerdict env orc ms (runO orcl (evalMs env orc expr ms) j).1 = verdictAt env orc expr dir name content orcl j := by
+  obtain ⟨ms0, h0, h1, h2, h3, h4⟩ := fileMs_of_parsed h
+  unfold verdictAt
+  rw [h0]
+  dsimp only
+  rw [evVerdict_congr env orc h1 h2 h4, evalMs_congr env orc expr h1 h2 h3]
+
+/-- ... and for given answers. -/
+theorem msVerdictA_of_parsed (env : PEnv) (orc : EvalOracles) (expr : Expr) (dir name content : Bytes) (ms : MsgSt)
+    (h : ParsedAs dir name content (some ms)) (as : List SysAns) :
+    msVerdictA env orc expr ms as = verdictA env orc expr dir name content as := by
+  obtain ⟨ms0, h0, h1, h2, h3, h4⟩ := fileMs_of_parsed h
+  unfold verdictA
+  rw [h0]
+  unfold msVerdictA
+  dsimp only
+  rw [evVerdict_congr env orc h1 h2 h4, h1, h2, h3]
+
+/-! ## rule trees that ask nothing: the verdict is the pure one, evaluation issues no call -/
+
+theorem noSys_msgEnv (env : PEnv) (orc : EvalOracles) (p : Bytes) : noSys (msgEnv env orc p) = msgEnv env orc p := rfl
+
+theorem evalMs_asksFree (env : PEnv) (orc : EvalOracles) (expr : Expr) (h : asksFree expr = true) (ms : MsgSt) :
+    evalMs env orc expr ms = .ret (eval (msgEnv env orc ms.path) ms.msg expr 0 ms.msg { ml := [], flags := ms.flags }) := by
+  unfold evalMs
+  rw [← noSys_msgEnv]
+  exact evalP_asksFree (msgEnv env orc ms.path) expr h ms.msg ms.flags
+
+theorem afterParse_asksFree (env : PEnv) (orc : EvalOracles) (expr : Expr) (h : asksFree expr = true) (md : Maildir)
+    (name : Bytes) (st : MainSt) (ms : MsgSt) :
+    afterParse env orc expr md name st (some ms) = afterVerdict env md name st ms (msVerdict env orc expr ms) := by
+  simp only [afterParse, evalMs_asksFree env orc expr h, msVerdict]
+  rfl
+
+theorem verdictAt_asksFree (env : PEnv) (orc : EvalOracles) (expr : Expr) (h : asksFree expr = true) (dir name content : Bytes)
+    (orcl : Nat → Call → Res) (j : Nat) :
+    verdictAt env orc expr dir name content orcl j = verdict env orc expr dir name content := by
+  unfold verdictAt verdict
+  cases fileMs dir name content with
+  | none => rfl
+  | some ms => simp only [evalMs_asksFree env orc expr h, msVerdict]; rfl
+
+theorem verdictA_asksFree (env : PEnv) (orc : EvalOracles) (expr : Expr) (h : asksFree expr = true) (dir name content : Bytes)
+    (as : List SysAns) : verdictA env orc expr dir name content as = verdict env orc expr dir name content := by
+  unfold verdictA verdict
+  cases fileMs dir name content with
+  | none => rfl
+  | some ms =>
+    have h1 := evalT_asksFree (msgEnv env orc ms.path) ms.msg expr h 0 ms.msg { ml := [], flags := ms.flags }
+    simp only [msVerdictA, msVerdict, evalR, evalTop]
+    rw [← noSys_msgEnv, h1]
+    rfl
+
+/-- The calls of the evaluation of the rule tree `expr`, whatever the message. -/
+theorem evalMs_calls (env : PEnv) (orc : EvalOracles) (expr : Expr) (ms : MsgSt) :
+    Calls (EvalCallOf expr) (evalMs env orc expr ms) :=
+  evalP_calls_of _ _ _ _
 
 /-! ## no action: only the descriptor is closed -/
 
@@ -192,63 +309,100 @@ theorem afterVerdict_noAct (env : PEnv) (md : Maildir) (name : Bytes) (st : Main
   | interpFail => exact hfree _
   | «nomatch» => exact hfree _
 
-/-- Whatever the calls return: when the rules do not produce actions for the message (no match,
+theorem calls_runO_mem {α} {Q : Call → Prop} {p : Prog α} (h : Calls Q p) (orcl : Nat → Call → Res) (i : Nat) :
+    ∀ x ∈ (runO orcl p i).2.1, Q x.1 := by
+  intro x hx
+  have := calls_runOracle_mem h orcl i [] x (by rw [runOracle_eq]; simpa using hx)
+  rcases this with h' | h'
+  · simp at h'
+  · exact h'
+
+theorem all_runO' {α} {P : α → Prop} {p : Prog α} (h : All P p) (orcl : Nat → Call → Res) (i : Nat) : P (runO orcl p i).1 := by
+  have := all_runOracle_val h orcl i []
+  rwa [runOracle_eq] at this
+
+/-- A call of the parse phase, of evaluation, or the closing of the message's descriptor. -/
+def ParseEvalCall (d : Handle) (expr : Expr) (c : Call) : Prop := ParseCall d c ∨ EvalCallOf expr c
+
+theorem ParseEvalCall.quiet {d : Handle} {expr : Expr} {c : Call} (h : ParseEvalCall d expr c) : c.mutating = false := by
+  rcases h with h | h
+  · exact h.quiet.1
+  · exact h.evalCall.quiet
+
+/-- ... and such a call is a `fork` only if the rule tree has a `command` condition. -/
+theorem ParseEvalCall.fork {d : Handle} {expr : Expr} (h : ParseEvalCall d expr .fork) : hasCommand expr = true := by
+  rcases h with h | ⟨h, _⟩ | ⟨_, p, hp⟩
+  · exact absurd rfl h.quiet.2
+  · exact h
+  · cases hp
+
+theorem ParseEvalCall.of_asksFree {d : Handle} {expr : Expr} {c : Call} (hf : asksFree expr = true)
+    (h : ParseEvalCall d expr c) : ParseCall d c := by
+  simp only [asksFree, Bool.and_eq_true, Bool.not_eq_true'] at hf
+  rcases h with h | ⟨h, _⟩ | ⟨h | h, _⟩
+  · exact h
+  · rw [hf.1.1] at h; cases h
+  · rw [hf.1.2] at h; cases h
+  · rw [hf.2] at h; cases h
+
+/-- Whatever the calls return: when in this run the rules do not produce actions for the message (no match,
 evaluation error, interpolation failure, unparsable name), the run of `processMessage` is the run of
-the parse phase followed by at most one `close`; the state changes in the `error` bit only, which is
+the parse phase, then the calls of evaluation (`open("/dev/null")`, `fork`, `waitpid`, `close` for a `command`
+condition, `stat` for `isdirectory` and the file-time `date` conditions - none if the tree has none of them),
+then at most one `close`; no call is mutating; the state changes in the `error` bit only, which is
 set iff the parse failed or the verdict is an error. -/
 theorem processMessage_noAct_run (env : PEnv) (orc : EvalOracles) (expr : Expr) (md : Maildir) (name : Bytes)
     (st : MainSt) (d : Handle) (content : Bytes)
     (hd : md.dirH = some d) (hf : st.files.get md.path name = some content)
-    (hv : (verdict env orc expr md.path name content).acts = false)
-    (orcl : Nat → Call → Res) :
+    (orcl : Nat → Call → Res)
+    (hv : (verdictAt env orc expr md.path name content orcl (runO orcl (messageParseP d md.path name content) 0).2.2).acts = false) :
     (∀ x ∈ (runOracle orcl (processMessage env orc expr md name st) 0 []).2,
-      ParseCall d x.1 ∧ x.1.mutating = false ∧ x.1 ≠ .fork) ∧
-    (∃ L, (runOracle orcl (processMessage env orc expr md name st) 0 []).2 =
-        (runOracle orcl (messageParseP d md.path name content) 0 []).2 ++ L ∧ ∀ x ∈ L, IsClose x.1) ∧
+      ParseEvalCall d expr x.1 ∧ x.1.mutating = false) ∧
+    (∃ E L, (runOracle orcl (processMessage env orc expr md name st) 0 []).2 =
+        (runOracle orcl (messageParseP d md.path name content) 0 []).2 ++ E ++ L ∧
+        (∀ x ∈ E, EvalCallOf expr x.1) ∧ ∀ x ∈ L, IsClose x.1) ∧
     (runOracle orcl (processMessage env orc expr md name st) 0 []).1 =
       (if (runOracle orcl (messageParseP d md.path name content) 0 []).1.isNone ||
-          (verdict env orc expr md.path name content).isErr then { st with error := true } else st, md) := by
+          (verdictAt env orc expr md.path name content orcl (runO orcl (messageParseP d md.path name content) 0).2.2).isErr
+        then { st with error := true } else st, md) := by
   have hK := processMessage_eq env orc expr md name st d content hd hf
   have hall := all_messageParseP_as d md.path name content
-  have hK' : ∀ pm, ParsedAs md.path name content pm →
-      Calls IsClose (afterParse env orc expr md name st pm) ∧
-      All (fun r => r = (if pm.isNone || (verdict env orc expr md.path name content).isErr then { st with error := true } else st, md))
-        (afterParse env orc expr md name st pm) := by
-    intro pm hpm
-    cases pm with
-    | none => exact ⟨calls_ret _, rfl⟩
-    | some ms =>
-      have hvd := msVerdict_of_parsed env orc expr md.path name content ms hpm
-      simp only [afterParse, hvd]
-      exact afterVerdict_noAct env md name st ms _ hv
-  have hcalls : Calls (ParseCall d) (processMessage env orc expr md name st) := by
-    rw [hK]
-    exact calls_bind_all (parse_messageParseP d md.path name content) hall
-      fun pm hpm => calls_mono (hK' pm hpm).1 fun c hc => .inr (.inr hc)
   have hpm : ParsedAs md.path name content (runO orcl (messageParseP d md.path name content) 0).1 := by
     have := all_runOracle_val hall orcl 0 []
     rwa [runOracle_eq] at this
-  refine ⟨?_, ?_, ?_⟩
-  · intro x hx
-    rcases calls_runOracle_mem hcalls orcl 0 [] x hx with h | h
-    · simp at h
-    · exact ⟨h, h.quiet⟩
-  · rw [hK]
-    simp only [runOracle_eq, runO_bind, List.nil_append]
-    refine ⟨_, rfl, ?_⟩
-    intro x hx
-    have := calls_runOracle_mem (hK' _ hpm).1 orcl (runO orcl (messageParseP d md.path name content) 0).2.2 [] x
-      (by rw [runOracle_eq]; simpa using hx)
-    rcases this with h | h
-    · simp at h
-    · exact h
-  · rw [hK]
-    simp only [runOracle_eq, runO_bind, List.nil_append]
-    have := all_runOracle_val (hK' _ hpm).2 orcl (runO orcl (messageParseP d md.path name content) 0).2.2 []
-    rw [runOracle_eq] at this
-    exact this
+  have hparse := calls_runO_mem (parse_messageParseP d md.path name content) orcl 0
+  rw [hK]
+  simp only [runOracle_eq, runO_bind, List.nil_append]
+  generalize runO orcl (messageParseP d md.path name content) 0 = P at hv hpm hparse ⊢
+  obtain ⟨pm, trP, j⟩ := P
+  dsimp only at hv hpm hparse ⊢
+  cases pm with
+  | none =>
+    simp only [afterParse, runO_ret, List.append_nil, Option.isNone_none, Bool.true_or, if_true]
+    refine ⟨fun x hx => ⟨.inl (hparse x hx), (hparse x hx).quiet.1⟩, ⟨[], [], by simp, by simp, by simp⟩, ?_⟩
+    first | trivial | rfl
+  | some ms =>
+    have hvd := verdictAt_of_parsed env orc expr md.path name content ms hpm orcl j
+    have heval := calls_runO_mem (evalMs_calls env orc expr ms) orcl j
+    simp only [afterParse, runO_bind]
+    generalize runO orcl (evalMs env orc expr ms) j = E at hvd heval ⊢
+    obtain ⟨ev, trE, j2⟩ := E
+    dsimp only at hvd heval ⊢
+    rw [hvd]
+    obtain ⟨hc, ha⟩ := afterVerdict_noAct env md name st ms _ hv
+    have hclose := calls_runO_mem hc orcl j2
+    have hval := all_runO' ha orcl j2
+    refine ⟨?_, ⟨trE, _, by simp, heval, hclose⟩, ?_⟩
+    · intro x hx
+      simp only [List.mem_append] at hx
+      rcases hx with hx | hx | hx
+      · exact ⟨.inl (hparse x hx), (hparse x hx).quiet.1⟩
+      · exact ⟨.inr (heval x hx), (heval x hx).evalCall.quiet⟩
+      · exact ⟨.inl (.inr (.inr (hclose x hx))), by obtain ⟨fd, h⟩ := hclose x hx; rw [h]; rfl⟩
+    · rw [hval]
+      simp [noActOutcome]
 
-/-- The verdict in terms of evaluation and interpolation, for a name that parses. -/
+/-- The pure verdict in terms of evaluation and interpolation, for a name that parses. -/
 theorem verdict_of_parts (env : PEnv) (orc : EvalOracles) (expr : Expr) (dir name content p n : Bytes) (mf : MFlags)
     (hp : pathjoin PATH_MAX dir name = some p) (hn : strlcpyFits NAME_MAX1 name = some n) (hmf : flagsParse n = some mf) :
     verdict env orc expr dir name content =
@@ -260,18 +414,84 @@ theorem verdict_of_parts (env : PEnv) (orc : EvalOracles) (expr : Expr) (dir nam
             (partMsg (parseMessage content) ((getAttachments (parseMessage content)).getD [])) with
         | none => .interpFail
         | some (ml, msgs) => .act ml msgs est.flags := by
-  unfold verdict
-  simp only [hp, hn, hmf]
-  rfl
+  unfold verdict fileMs
+  simp only [hp, hn, hmf, msVerdict]
+  generalize eval (msgEnv env orc p) (parseMessage content) expr 0 (parseMessage content) { ml := [], flags := mf } = r
+  obtain ⟨t, est⟩ := r
+  cases t <;> rfl
 
-/-- `processMessage_noAct_run` with the hypothesis spelled out: evaluation says no match or error, or
-interpolation fails. -/
+/-- The run's verdict in terms of the result of evaluation in the run, for a name that parses. -/
+theorem verdictAt_of_parts (env : PEnv) (orc : EvalOracles) (expr : Expr) (dir name content p n : Bytes) (mf : MFlags)
+    (hp : pathjoin PATH_MAX dir name = some p) (hn : strlcpyFits NAME_MAX1 name = some n) (hmf : flagsParse n = some mf)
+    (orcl : Nat → Call → Res) (j : Nat) :
+    verdictAt env orc expr dir name content orcl j =
+      match (runO orcl (evalP (msgEnv env orc p) expr (parseMessage content) mf) j).1 with
+      | (.error, _) => .error
+      | (.nomatch, _) => .nomatch
+      | (.match, est) =>
+        match matchesInterpolate (msgEnv env orc p) est.ml
+            (partMsg (parseMessage content) ((getAttachments (parseMessage content)).getD [])) with
+        | none => .interpFail
+        | some (ml, msgs) => .act ml msgs est.flags := by
+  unfold verdictAt fileMs
+  simp only [hp, hn, hmf, evalMs]
+  generalize (runO orcl (evalP (msgEnv env orc p) expr (parseMessage content) mf) j).1 = r
+  obtain ⟨t, est⟩ := r
+  cases t <;> rfl
+
+/-- `processMessage_noAct_run` with the hypothesis spelled out: in this run evaluation says no match or error, or
+interpolation of the list it produced fails. -/
 theorem processMessage_noMatch_run (env : PEnv) (orc : EvalOracles) (expr : Expr) (md : Maildir) (name : Bytes)
     (st : MainSt) (d : Handle) (content p n : Bytes) (mf : MFlags)
     (hd : md.dirH = some d) (hf : st.files.get md.path name = some content)
     (hp : pathjoin PATH_MAX md.path name = some p) (hn : strlcpyFits NAME_MAX1 name = some n)
     (hmf : flagsParse n = some mf)
-    (hno : (eval (msgEnv env orc p) (parseMessage content) expr 0 (parseMessage content) { ml := [], flags := mf }).1 = .nomatch ∨
+    (orcl : Nat → Call → Res) (ev : Tri × St)
+    (hev : (runO orcl (evalP (msgEnv env orc p) expr (parseMessage content) mf)
+      (runO orcl (messageParseP d md.path name content) 0).2.2).1 = ev)
+    (hno : ev.1 = .nomatch ∨ ev.1 = .error ∨
+      (ev.1 = .match ∧ (matchesInterpolate (msgEnv env orc p) ev.2.ml
+          (partMsg (parseMessage content) ((getAttachments (parseMessage content)).getD []))).isNone = true)) :
+    (∀ x ∈ (runOracle orcl (processMessage env orc expr md name st) 0 []).2,
+      ParseEvalCall d expr x.1 ∧ x.1.mutating = false) ∧
+    (∃ E L, (runOracle orcl (processMessage env orc expr md name st) 0 []).2 =
+        (runOracle orcl (messageParseP d md.path name content) 0 []).2 ++ E ++ L ∧
+        (∀ x ∈ E, EvalCallOf expr x.1) ∧ ∀ x ∈ L, ∃ fd, x.1 = .close fd) ∧
+    (runOracle orcl (processMessage env orc expr md name st) 0 []).1 =
+      (if (runOracle orcl (messageParseP d md.path name content) 0 []).1.isNone || ev.1 != .nomatch
+        then { st with error := true } else st, md) := by
+  have hv := verdictAt_of_parts env orc expr md.path name content p n mf hp hn hmf orcl
+    (runO orcl (messageParseP d md.path name content) 0).2.2
+  rw [hev] at hv
+  obtain ⟨t, est⟩ := ev
+  have key : (verdictAt env orc expr md.path name content orcl (runO orcl (messageParseP d md.path name content) 0).2.2).acts = false ∧
+      (verdictAt env orc expr md.path name content orcl (runO orcl (messageParseP d md.path name content) 0).2.2).isErr = (t != .nomatch) := by
+    cases t with
+    | «match» =>
+      rcases hno with h1 | h1 | ⟨-, h1⟩
+      · cases h1
+      · cases h1
+      · dsimp only at h1 hv
+        generalize matchesInterpolate (msgEnv env orc p) est.ml _ = mi at h1 hv
+        cases mi with
+        | none => rw [hv]; exact ⟨rfl, rfl⟩
+        | some x => cases h1
+    | «nomatch» => rw [hv]; exact ⟨rfl, rfl⟩
+    | error => rw [hv]; exact ⟨rfl, rfl⟩
+  obtain ⟨ha, he⟩ := key
+  have := processMessage_noAct_run env orc expr md name st d content hd hf orcl ha
+  rw [he] at this
+  exact this
+
+/-- `processMessage_noMatch_run` for a rule tree that asks the operating system nothing, in terms of the pure evaluator:
+only the calls of parsing, no `fork`. -/
+theorem processMessage_noMatch_run_pure (env : PEnv) (orc : EvalOracles) (expr : Expr) (md : Maildir) (name : Bytes)
+    (st : MainSt) (d : Handle) (content p n : Bytes) (mf : MFlags)
+    (hd : md.dirH = some d) (hf : st.files.get md.path name = some content)
+    (hp : pathjoin PATH_MAX md.path name = some p) (hn : strlcpyFits NAME_MAX1 name = some n)
+    (hmf : flagsParse n = some mf) (hfree : asksFree expr = true)
+    (hno :
+      (eval (msgEnv env orc p) (parseMessage content) expr 0 (parseMessage content) { ml := [], flags := mf }).1 = .nomatch ∨
       (eval (msgEnv env orc p) (parseMessage content) expr 0 (parseMessage content) { ml := [], flags := mf }).1 = .error ∨
       ((eval (msgEnv env orc p) (parseMessage content) expr 0 (parseMessage content) { ml := [], flags := mf }).1 = .match ∧
        (matchesInterpolate (msgEnv env orc p)
@@ -287,28 +507,30 @@ theorem processMessage_noMatch_run (env : PEnv) (orc : EvalOracles) (expr : Expr
       (if (runOracle orcl (messageParseP d md.path name content) 0 []).1.isNone ||
           (eval (msgEnv env orc p) (parseMessage content) expr 0 (parseMessage content) { ml := [], flags := mf }).1 != .nomatch
         then { st with error := true } else st, md) := by
-  have hv := verdict_of_parts env orc expr md.path name content p n mf hp hn hmf
-  generalize eval (msgEnv env orc p) (parseMessage content) expr 0 (parseMessage content) { ml := [], flags := mf } = r
-    at hno hv ⊢
-  obtain ⟨t, est⟩ := r
-  have key : (verdict env orc expr md.path name content).acts = false ∧
-      (verdict env orc expr md.path name content).isErr = (t != .nomatch) := by
-    cases t with
-    | «match» =>
-      rcases hno with h1 | h1 | ⟨-, h1⟩
-      · cases h1
-      · cases h1
-      · dsimp only at h1 hv
-        generalize matchesInterpolate (msgEnv env orc p) est.ml _ = mi at h1 hv
-        cases mi with
-        | none => rw [hv]; exact ⟨rfl, rfl⟩
-        | some x => cases h1
-    | «nomatch» => rw [hv]; exact ⟨rfl, rfl⟩
-    | error => rw [hv]; exact ⟨rfl, rfl⟩
-  obtain ⟨ha, he⟩ := key
-  have := processMessage_noAct_run env orc expr md name st d content hd hf ha orcl
-  rw [he] at this
-  exact this
+  have hev : (Own.runO orcl (evalP (msgEnv env orc p) expr (parseMessage content) mf)
+      (Own.runO orcl (messageParseP d md.path name content) 0).2.2).1 =
+      eval (msgEnv env orc p) (parseMessage content) expr 0 (parseMessage content) { ml := [], flags := mf } := by
+    rw [← noSys_msgEnv, evalP_asksFree (msgEnv env orc p) expr hfree]
+    rfl
+  obtain ⟨h1, ⟨E, L, h2, hE, hL⟩, h3⟩ :=
+    processMessage_noMatch_run env orc expr md name st d content p n mf hd hf hp hn hmf orcl _ hev hno
+  have hE0 : E = [] := by
+    apply List.eq_nil_iff_forall_not_mem.2
+    intro x hx
+    have := (ParseEvalCall.of_asksFree (d := d) hfree (.inr (hE x hx)))
+    have hq := (hE x hx).evalCall
+    -- an evaluation call of a tree that asks nothing does not exist
+    have hf' := hfree
+    simp only [asksFree, Bool.and_eq_true, Bool.not_eq_true'] at hf'
+    rcases hE x hx with ⟨hc, _⟩ | ⟨hs | hs, _⟩
+    · rw [hf'.1.1] at hc; cases hc
+    · rw [hf'.1.2] at hs; cases hs
+    · rw [hf'.2] at hs; cases hs
+  subst hE0
+  refine ⟨fun x hx => ?_, ⟨L, by simpa using h2, hL⟩, h3⟩
+  have hpc := ParseEvalCall.of_asksFree hfree (h1 x hx).1
+  exact ⟨hpc, hpc.quiet⟩
+
 
 /-- The two degenerate cases: a maildir that is not open, and a name the model has no content for. -/
 theorem processMessage_degenerate_run (env : PEnv) (orc : EvalOracles) (expr : Expr) (md : Maildir) (name : Bytes)
